@@ -321,7 +321,8 @@ def onSubstreamOpenFailure (st : St) (s : Nat) : St :=
 /-! ## operations of the harness -/
 
 inductive Op where
-  | conn (p : Nat)
+  /-- `alive = false`: the connection's command channel is already gone when the event is handled -/
+  | conn (p : Nat) (alive : Bool)
   | disc (p : Nat)
   | conndead (p : Nat)
   | dialfail (p : Nat)
@@ -345,13 +346,13 @@ def St.inboundOwner (st : St) (k : Nat) : Option Nat := (st.inbound.find? fun e 
 
 /-- One operation: the events the harness injects are handled by `run()` one after the other. -/
 def step (L : Limits) (st : St) : Op → St × Res × Out
-  | .conn p =>
+  | .conn p alive =>
     match alookup p st.conns with
     | some _ => (st, .none, {})
     | none =>
-      ((onConnectionEstablished { st with conns := ainsert p true st.conns, views := ainsert p .connected st.views } p).1,
+      ((onConnectionEstablished { st with conns := ainsert p alive st.conns, views := ainsert p .connected st.views } p).1,
        .ok,
-       (onConnectionEstablished { st with conns := ainsert p true st.conns, views := ainsert p .connected st.views } p).2)
+       (onConnectionEstablished { st with conns := ainsert p alive st.conns, views := ainsert p .connected st.views } p).2)
   | .disc p =>
     match alookup p st.conns with
     | none => (st, .none, {})
